@@ -52,8 +52,19 @@ pub struct Case {
     pub mutation: String,
 }
 
+/// length of the byte-string members: variant 3 uses long ones (beyond a 4 KiB scratch buffer)
+fn blen(variant: u8, short: usize) -> usize {
+    if variant == 3 {
+        4097 + short
+    } else {
+        short
+    }
+}
 fn desc(with_transports: bool, n: u8) -> webauthn::PublicKeyCredentialDescriptor {
-    webauthn::PublicKeyCredentialDescriptor { ty: webauthn::PublicKeyCredentialType::PublicKey, id: vec![n; 16].into(), transports: with_transports.then(|| vec![webauthn::AuthenticatorTransport::Usb, webauthn::AuthenticatorTransport::Internal]) }
+    desc_v(with_transports, n, 0)
+}
+fn desc_v(with_transports: bool, n: u8, variant: u8) -> webauthn::PublicKeyCredentialDescriptor {
+    webauthn::PublicKeyCredentialDescriptor { ty: webauthn::PublicKeyCredentialType::PublicKey, id: vec![n; blen(variant, 16)].into(), transports: with_transports.then(|| vec![webauthn::AuthenticatorTransport::Usb, webauthn::AuthenticatorTransport::Internal]) }
 }
 fn prf_inputs(variant: u8) -> AuthenticatorPrfInputs {
     AuthenticatorPrfInputs {
@@ -86,14 +97,14 @@ fn build(ty: &str, pattern: u32, variant: u8) -> Result<(Vec<u8>, String), Strin
     }
     match ty {
         "makeCredential.request" => ser(&make_credential::Request {
-            client_data_hash: vec![1; 32].into(),
+            client_data_hash: vec![1; blen(variant, 32)].into(),
             rp: make_credential::PublicKeyCredentialRpEntity { id: "example.com".into(), name: (variant % 2 == 0).then(|| "Example".into()) },
-            user: webauthn::PublicKeyCredentialUserEntity { id: vec![0, 255, 7].into(), name: "n".into(), display_name: "dn".into() },
+            user: webauthn::PublicKeyCredentialUserEntity { id: vec![7; blen(variant, 3)].into(), name: "n".into(), display_name: "dn".into() },
             pub_key_cred_params: vec![es256_param(), param(coset::iana::Algorithm::RS256)],
-            exclude_list: has(5).then(|| vec![desc(variant % 2 == 0, 1), desc(variant % 2 == 1, 2)]),
+            exclude_list: has(5).then(|| vec![desc_v(variant % 2 == 0, 1, variant), desc(variant % 2 == 1, 2)]),
             extensions: has(6).then(|| make_credential::ExtensionInputs { hmac_secret: Some(true), hmac_secret_mc: (variant == 2).then(|| hmac_input(true)), prf: Some(prf_inputs(variant)) }),
             options: make_credential::Options { rk: variant % 2 == 0, up: true, uv: variant >= 1 },
-            pin_auth: has(8).then(|| vec![4; 16].into()),
+            pin_auth: has(8).then(|| vec![4; blen(variant, 16)].into()),
             pin_protocol: has(9).then_some(1),
         }),
         "makeCredential.response" => ser(&make_credential::Response {
@@ -101,26 +112,26 @@ fn build(ty: &str, pattern: u32, variant: u8) -> Result<(Vec<u8>, String), Strin
             auth_data: auth_data(1),
             att_stmt: Cbor::Map(vec![]),
             ep_att: has(4).then_some(variant % 2 == 0),
-            large_blob_key: has(5).then(|| vec![6; 32].into()),
+            large_blob_key: has(5).then(|| vec![6; blen(variant, 32)].into()),
             unsigned_extension_outputs: has(6).then(|| make_credential::UnsignedExtensionOutputs { prf: Some(AuthenticatorPrfMakeOutputs { enabled: true, results: (variant >= 1).then(|| AuthenticatorPrfValues { first: [1; 32], second: None }) }) }),
         }),
         "getAssertion.request" => ser(&get_assertion::Request {
             rp_id: "example.com".into(),
-            client_data_hash: vec![2; 32].into(),
-            allow_list: has(3).then(|| vec![desc(variant % 2 == 0, 1)]),
+            client_data_hash: vec![2; blen(variant, 32)].into(),
+            allow_list: has(3).then(|| vec![desc_v(variant % 2 == 0, 1, variant)]),
             extensions: has(4).then(|| get_assertion::ExtensionInputs { hmac_secret: (variant == 2).then(|| hmac_input(false)), prf: Some(prf_inputs(variant)) }),
             options: get_assertion::Options { rk: false, up: variant % 2 == 0, uv: variant >= 1 },
-            pin_auth: has(6).then(|| vec![4; 16].into()),
+            pin_auth: has(6).then(|| vec![4; blen(variant, 16)].into()),
             pin_protocol: has(7).then_some(2),
         }),
         "getAssertion.response" => ser(&get_assertion::Response {
             credential: has(1).then(|| desc(variant % 2 == 1, 3)),
             auth_data: auth_data(0),
-            signature: vec![0x30, 0x06, 2, 1, 1, 2, 1, 1].into(),
+            signature: if variant == 3 { vec![0x30; 5000].into() } else { vec![0x30, 0x06, 2, 1, 1, 2, 1, 1].into() },
             user: has(4).then(|| webauthn::PublicKeyCredentialUserEntity { id: vec![1, 2].into(), name: "".into(), display_name: "".into() }),
             number_of_credentials: has(5).then_some(3),
             user_selected: has(6).then_some(true),
-            large_blob_key: has(7).then(|| vec![6; 32].into()),
+            large_blob_key: has(7).then(|| vec![6; blen(variant, 32)].into()),
             unsigned_extension_outputs: has(8).then(|| get_assertion::UnsignedExtensionOutputs { prf: Some(AuthenticatorPrfGetOutputs { results: AuthenticatorPrfValues { first: [1; 32], second: (variant >= 1).then_some([2; 32]) } }) }),
         }),
         "getInfo.response" => ser(&get_info::Response {
@@ -132,7 +143,13 @@ fn build(ty: &str, pattern: u32, variant: u8) -> Result<(Vec<u8>, String), Strin
             pin_protocols: has(6).then(|| vec![1, 2]),
             transports: has(9).then(|| vec![webauthn::AuthenticatorTransport::Internal, webauthn::AuthenticatorTransport::Hybrid]),
         }),
-        _ => ser(&hmac_input(has(4))),
+        _ => {
+            let mut h = hmac_input(has(4));
+            if variant == 3 {
+                h.salt_enc = vec![9; 4200].into();
+            }
+            ser(&h)
+        }
     }
 }
 
@@ -290,6 +307,8 @@ pub fn cases(tier: Tier) -> Vec<Case> {
         let table = key_table(ty);
         let assigned: Vec<u8> = table.iter().map(|t| t.1).collect();
         for pattern in 0..(1u32 << nopt) {
+            // variant 3: byte-string members longer than 4 KiB – round trip only
+            v.push(Case { ty: ty.into(), pattern, variant: 3, mutation: "base".into() });
             for variant in 0..3u8 {
                 let mk = |m: String| Case { ty: ty.into(), pattern, variant, mutation: m };
                 v.push(mk("base".into()));
@@ -393,7 +412,7 @@ pub fn run(ctx: &Ctx) -> Result<Run, String> {
     }
     let mut run = Run::from_stats(
         "exploration",
-        "for each of the six CTAP2 message types: all presence patterns of the optional members x 3 nested-value variants, serialised with ciborium and inspected as a generic CBOR value (keys = the specification's integers for the present members, ascending, no nulls), round-tripped; mutations of the encodings: every integer key 0..255 not assigned to a member inserted (every position for the full pattern, at the end otherwise; all positions in thorough) with int/map/bytes values, unknown text keys at every position, each required member removed, each present member duplicated, options omitted / empty; all 256 status bytes converted both ways and injected as lookup failure under Client::authenticate. Every case is distinct",
+        "for each of the six CTAP2 message types: all presence patterns of the optional members x 3 nested-value variants (plus a variant with byte-string members of more than 4 KiB), serialised with ciborium and inspected as a generic CBOR value (keys = the specification's integers for the present members, ascending, no nulls), round-tripped; mutations of the encodings: every integer key 0..255 not assigned to a member inserted (every position for the full pattern, at the end otherwise; all positions in thorough) with int/map/bytes values, unknown text keys at every position, each required member removed, each present member duplicated, options omitted / empty; all 256 status bytes converted both ways and injected as lookup failure under Client::authenticate. Every case is distinct",
         true,
         stats,
     );
